@@ -7,7 +7,7 @@
 // call (description + raw cached signature + is_valid()) compared with one taken after it.
 // Allocation requests above 64 MiB throw std::bad_alloc (a damaged element count must not take
 // the harness down); such exceptions are reported as exc:bad_alloc.
-#include "c11_ser.h"
+#include "c11_big.h"
 
 #include <cstdlib>
 #include <new>
@@ -56,6 +56,7 @@ std::string run_load(T &target, const std::string &bytes, Load load, Snap snapf,
 int main()
 {
   vita::log::reporting_level = vita::log::lOFF;
+  (void)c11::M();      // the symbol set is built first: same opcodes as in c11_ser
   std::string line;
   while (std::getline(std::cin, line))
   {
